@@ -391,6 +391,175 @@ def gen_active(rng, T):
     return cases
 
 
+MIXERS = ("Beamsplitter", "MachZehnder", "Interferometer", "Squeezing2", "GaussianTransform")
+ACTIVE_KINDS = ("Squeezing", "QuadraticPhase", "Squeezing2", "GaussianTransform")
+
+
+def _generic_phase(rng):
+    """a phase that is not near any multiple of pi/2"""
+    return rng.choice([-1, 1]) * (rng.uniform(0.25, 1.3) + rng.choice([0.0, math.pi / 2]))
+
+
+def _bs_matrix(theta, phi):
+    t, r = math.cos(theta), complex(math.cos(phi), math.sin(phi)) * math.sin(theta)
+    return [[complex(t), -r.conjugate()], [r, complex(t)]]
+
+
+def _mk_active(rng, kind, modes, r):
+    """an active gate of the shared instruction set with generic complex parameters"""
+    if kind == "Squeezing":
+        return {"g": kind, "modes": modes[:1], "kw": {"r": r, "phi": _generic_phase(rng)}}
+    if kind == "QuadraticPhase":
+        return {"g": kind, "modes": modes[:1], "kw": {"s": rng.choice([-1, 1]) * 2 * r}}
+    if kind == "Squeezing2":
+        return {"g": kind, "modes": modes[:2], "kw": {"r": r, "phi": _generic_phase(rng)}}
+    if kind == "Displacement":
+        return {"g": kind, "modes": modes[:1], "kw": {"r": 1.5 * r, "phi": _generic_phase(rng)}}
+    a, b = _generic_phase(rng), _generic_phase(rng)
+    if len(modes) == 1:  # one-mode Gaussian transform: P = cosh r e^{ia}, A = sinh r e^{ib}
+        pa = [[[math.cosh(r) * math.cos(a), math.cosh(r) * math.sin(a)]]]
+        ac = [[[math.sinh(r) * math.cos(b), math.sinh(r) * math.sin(b)]]]
+    else:  # two-mode: P = cosh r W, A = e^{ib} sinh r W X  (W a complex beamsplitter, X the swap)
+        W = _bs_matrix(rng.uniform(0.3, 1.2), a)
+        ph = complex(math.cos(b), math.sin(b))
+        P = [[math.cosh(r) * W[i][j] for j in range(2)] for i in range(2)]
+        A = [[ph * math.sinh(r) * W[i][1 - j] for j in range(2)] for i in range(2)]
+        pa = [[[z.real, z.imag] for z in row] for row in P]
+        ac = [[[z.real, z.imag] for z in row] for row in A]
+    return {"g": "GaussianTransform", "modes": modes[:len(pa)], "kw": {"passive": {"matrix": pa}, "active": {"matrix": ac}}}
+
+
+def _mk_mixer(rng, modes):
+    x = rng.random()
+    if x < 0.6:
+        return {"g": "Beamsplitter", "modes": modes, "kw": {"theta": rng.uniform(0.35, 1.2), "phi": _generic_phase(rng)}}
+    if x < 0.8:
+        return {"g": "MachZehnder", "modes": modes, "kw": {"int_": rng.uniform(0.6, 2.4), "ext": _generic_phase(rng)}}
+    W = _bs_matrix(rng.uniform(0.35, 1.2), _generic_phase(rng))
+    return {"g": "Interferometer", "modes": modes, "kw": {"matrix": {"matrix": [[[z.real, z.imag] for z in row] for row in W]}}}
+
+
+def gen_entangle(rng, T):
+    """Grammar  SQUEEZE(a) ; MIX(a,b) ; ACTIVE_complex(strict subset containing a or b) ;
+    MIX(addressed mode, other) ; [PASSIVE]  -- 'entangle, active gate with complex parameters
+    on a strict subset, mix, measure statistics'.  Every active gate kind of the shared
+    instruction set is cycled through both active positions, every ordered mode pair is used.
+    Not exact under truncation (two active gates): Gaussian (exact) and pure Fock at a high
+    cutoff are compared to 1e-6 on sectors <= 2; the mixed Fock simulator joins a quarter of
+    the programs at a lower cutoff with smaller squeezing and tolerance 1e-4."""
+    cases = []
+    hbars = [0.5, 1.0, 2.0, 3.7]
+    n = 100 if T else 20
+    second_kinds = ["Squeezing", "QuadraticPhase", "GaussianTransform", "Squeezing2", "GaussianTransform2"]
+    first_kinds = ["Squeezing", "Squeezing2", "GaussianTransform", "QuadraticPhase"]
+    pairs2 = list(itertools.permutations(range(2), 2))
+    pairs3 = list(itertools.permutations(range(3), 2))
+    for i in range(n):
+        k2 = second_kinds[i % len(second_kinds)]
+        k1 = first_kinds[(i // len(second_kinds)) % len(first_kinds)]
+        d = 3 if k2 in ("Squeezing2", "GaussianTransform2") or i % 2 else 2
+        a, b = (pairs3 if d == 3 else pairs2)[(i * 7 + i // 3) % (6 if d == 3 else 2)]
+        others = [m for m in range(d) if m not in (a, b)]
+        with_fock = (i % 4 == 3)
+        # the mixed Fock simulator joins at a low cutoff: smaller squeezing, no displacement
+        r1 = rng.uniform(0.1, 0.15) if with_fock else rng.uniform(0.14, 0.2)
+        r2 = rng.uniform(0.08, 0.12) if with_fock else rng.uniform(0.1, 0.16)
+        gates = [_mk_active(rng, k1, [a, b], r1)]
+        if rng.random() < 0.25 and not with_fock:
+            gates.append(_mk_active(rng, "Displacement", [rng.choice([a, b])], 0.12))
+        gates.append(_mk_mixer(rng, [a, b] if rng.random() < 0.5 else [b, a]))
+        # active gate with a complex active block on a strict subset of the modes, one of whose
+        # modes is now squeezed and correlated with a spectator
+        tgt = rng.choice([a, b])
+        spect = b if tgt == a else a
+        if k2 in ("Squeezing2", "GaussianTransform2"):
+            m2 = [tgt, others[0]] if rng.random() < 0.5 else [others[0], tgt]
+            act = _mk_active(rng, "Squeezing2" if k2 == "Squeezing2" else "GaussianTransform", m2, r2)
+        else:
+            act = _mk_active(rng, k2, [tgt], r2)
+        gates.append(act)
+        partner = rng.choice([spect] + others)
+        gates.append(_mk_mixer(rng, [tgt, partner] if rng.random() < 0.5 else [partner, tgt]))
+        if rng.random() < 0.3:
+            gates.append({"g": "Phaseshifter", "modes": [rng.randrange(d)], "kw": {"phi": _generic_phase(rng)}})
+        cases.append({"cls": "entangle", "d": d, "cutoff": 12 if d == 2 else 10, "hbar": hbars[(i + i // 4) % 4], "nmax": 2,
+                      "sims": ["gaussian", "pure"] + (["fock"] if with_fock else []),
+                      "cutoffs": {"fock": 8 if d == 2 else 6}, "gates": gates})
+    return cases
+
+
+def _complex_active(g):
+    if g["g"] in ("Squeezing", "Squeezing2"):
+        return abs(math.sin(g["kw"]["phi"])) > 1e-3 and g["kw"]["r"] != 0
+    if g["g"] == "QuadraticPhase":
+        return g["kw"]["s"] != 0
+    if g["g"] == "GaussianTransform":
+        return any(abs(z[1]) > 1e-6 for row in g["kw"]["active"]["matrix"] for z in row)
+    return False
+
+
+def _mixes(g):
+    if len(g["modes"]) < 2:
+        return False
+    if g["g"] == "Beamsplitter":
+        return abs(math.sin(2 * g["kw"]["theta"])) > 1e-3
+    return g["g"] in MIXERS
+
+
+def program_features(c):
+    """Syntactic structure of one program (independent of how it was generated).
+    'squeezed' modes carry a non-zero anomalous moment; a mixing gate that touches a squeezed
+    mode spreads squeezing and correlation over all of its modes (connected components)."""
+    d, gates = c["d"], c["gates"]
+    comp = list(range(d))
+    squeezed = set()
+    f = {"strict_subset_active": False, "entangled_spectator": False, "complex_active": False,
+         "conjunction": False, "conjunction_then_mix": False, "kinds": set()}
+    for k, g in enumerate(gates):
+        modes = g["modes"]
+        is_act = g["g"] in ACTIVE_KINDS
+        if is_act:
+            strict = len(modes) < d
+            cplx = _complex_active(g)
+            ent = any(m in squeezed and any(comp[x] == comp[m] for x in range(d) if x not in modes) for m in modes)
+            f["strict_subset_active"] |= strict
+            f["complex_active"] |= cplx
+            f["entangled_spectator"] |= (strict and ent)
+            if strict and cplx and ent:
+                f["conjunction"] = True
+                f["kinds"].add(g["g"] + ("/%d" % len(modes)))
+                if any(_mixes(h) and set(h["modes"]) & set(modes) for h in gates[k + 1:]):
+                    f["conjunction_then_mix"] = True
+            squeezed |= set(modes)
+        if (is_act and len(modes) >= 2) or _mixes(g):
+            if any(m in squeezed for m in modes):
+                squeezed |= set(modes)
+                root = comp[modes[0]]
+                olds = {comp[m] for m in modes}
+                comp = [root if x in olds else x for x in comp]
+    return f
+
+
+def feature_counts(cases):
+    out = {"programs": len(cases), "strict_subset_active": 0, "entangled_spectator": 0, "complex_active": 0,
+           "conjunction": 0, "conjunction_then_mix": 0, "conjunction_by_gate": {}, "conjunction_ordered_mode_tuples": set(),
+           "conjunction_by_hbar": {}, "conjunction_with_mixed_fock": 0}
+    for c in cases:
+        f = program_features(c)
+        for k in ("strict_subset_active", "entangled_spectator", "complex_active", "conjunction", "conjunction_then_mix"):
+            out[k] += int(f[k])
+        if f["conjunction_then_mix"]:
+            for kind in f["kinds"]:
+                out["conjunction_by_gate"][kind] = out["conjunction_by_gate"].get(kind, 0) + 1
+            out["conjunction_by_hbar"][str(c["hbar"])] = out["conjunction_by_hbar"].get(str(c["hbar"]), 0) + 1
+            out["conjunction_with_mixed_fock"] += int("fock" in c["sims"])
+            for g in c["gates"]:
+                if g["g"] in ACTIVE_KINDS:
+                    out["conjunction_ordered_mode_tuples"].add((c["d"],) + tuple(g["modes"]))
+    out["conjunction_ordered_mode_tuples"] = len(out["conjunction_ordered_mode_tuples"])
+    return out
+
+
 # --------------------------------------------------------------------------- the check
 def load_corpus():
     path = os.path.join(VERIF, "harness", "corpus", "c01.jsonl")
@@ -418,7 +587,7 @@ def run(chk: Check):
             mats = [[[(F(z[0]), F(z[1])) for z in row] for row in M] for M in c["mats"]]
             passive.append({"d": c["d"], "cutoff": c["cutoff"], "s": c["s"], "gates": c["gates"], "mats": mats, "corpus": True})
     passive += gen_passive(rng, T)
-    active = gen_active(rng, T)
+    active = gen_active(rng, T) + gen_entangle(rng, T)
 
     only = os.environ.get("C01_STREAMS")
     if only:  # development knob (mutation experiments); recorded in the evidence
@@ -429,7 +598,7 @@ def run(chk: Check):
         "tables": [{"d": c["d"], "cutoff": c["cutoff"], "U": c["U"]} for c in tables],
         "slos": [{"U": c["U"], "s": c["s"]} for c in slos],
         "passive": [{"d": c["d"], "cutoff": c["cutoff"], "s": c["s"], "gates": c["gates"]} for c in passive],
-        "active": [{k: c[k] for k in ("d", "cutoff", "hbar", "nmax", "sims", "gates")} for c in active],
+        "active": [{k: c[k] for k in ("d", "cutoff", "hbar", "nmax", "sims", "gates", "cutoffs") if k in c} for c in active],
     }
     import time
     t_ = time.time()
@@ -670,7 +839,7 @@ def run(chk: Check):
     neval = 0
     ndist = 0
     for c, r in zip(active, impl["active"]):
-        tol = 1e-9 if c["cls"] == "single" else 1e-6
+        tol0 = 1e-9 if c["cls"] == "single" else 1e-6
         label = "d=%d cutoff=%d hbar=%s gates=%s" % (c["d"], c["cutoff"], c["hbar"], [(g["g"], g["modes"]) for g in c["gates"]])
         witness = {k: c[k] for k in ("d", "cutoff", "hbar", "gates", "cls")}
         ok = {}
@@ -693,6 +862,8 @@ def run(chk: Check):
             ok[sim] = o
         for a, b in itertools.combinations(sorted(ok), 2):
             A_, B_ = ok[a], ok[b]
+            # the mixed Fock simulator runs at a lower cutoff in the 'entangle' class
+            tol = 1e-4 if (c["cls"] == "entangle" and "fock" in (a, b)) else tol0
             for key in ("probs", "pdp"):
                 neval += len(A_[key])
                 diffs = [abs(x - y) for x, y in zip(A_[key], B_[key])]
@@ -710,9 +881,17 @@ def run(chk: Check):
                               witness)
         if len(ok) >= 2 and any(g["g"] not in ("Phaseshifter", "Fourier") for g in c["gates"]):
             ndist += 1
+    feats = feature_counts(active)
+    chk.coverage["active_program_features"] = feats
+    chk.notes.append("structural features of the differential programs: %s" % json.dumps(feats, sort_keys=True))
+    need = 60 if T else 12
+    if active and feats["conjunction_then_mix"] < need:
+        corr_broken.append("generator: only %d programs have 'entangle -> complex active gate on a strict subset -> mix' (need >= %d)" % (feats["conjunction_then_mix"], need))
+    if active and len(feats["conjunction_by_gate"]) < 5:
+        corr_broken.append("generator: the conjunction is covered for %s only, expected Squeezing, QuadraticPhase, GaussianTransform/1, Squeezing2, GaussianTransform/2" % sorted(feats["conjunction_by_gate"]))
     chk.stream("differential test (no theorem): Gaussian vs pure Fock vs mixed Fock on programs with active gates",
                neval, ndist, kind="differential", samples=[{k: exa[k] for k in ("d", "cutoff", "hbar", "gates")} for exa in active[:1]],
-               note="class single: one active gate on the vacuum then passive gates, every sector below the cutoff, cutoff 1..6, tolerance 1e-9; class multi: 2-4 gates incl. squeezing/displacement/quadratic phase/two-mode squeezing/Gaussian transform/Kerr/cross-Kerr/attenuation, sectors <= 2 at cutoff 7..14, tolerance 1e-6 (truncation); hbar in {0.5,1,2,3.7}")
+               note="class single: one active gate on the vacuum then passive gates, every sector below the cutoff, cutoff 1..6, tolerance 1e-9; class multi: 2-4 gates incl. squeezing/displacement/quadratic phase/two-mode squeezing/Gaussian transform/Kerr/cross-Kerr/attenuation, sectors <= 2 at cutoff 7..14, tolerance 1e-6 (truncation); class entangle (grammar: squeeze a; mix (a,b); active gate with generic complex parameters on a strict subset containing a or b; mix; [phase]): every active kind (Squeezing, QuadraticPhase, Squeezing2, one- and two-mode GaussianTransform) in both positions, all ordered mode pairs, Gaussian vs pure Fock at cutoff 10..12 to 1e-6 on sectors <= 2, mixed Fock on a quarter at cutoff 6..8 (smaller squeezing) to 1e-4; feature counts in coverage.active_program_features; hbar in {0.5,1,2,3.7}")
 
     chk.notes.append("coq evaluation times (s): %s" % TIMES)
     chk.assumptions += [
